@@ -15,7 +15,7 @@ CHECKS = {
     "C02": (
         "exhaustive enumeration of the operator x operand-type matrix over boundary values, of all operator pairs/triples in all tree shapes and parenthesisations, and of all short literal spellings, executed on the real Operation/Function entry points, parser and interpreter against a reference evaluator",
         "Every binary/unary operator is applied to every ordered pair of 44 boundary values of the four types (result type = returned variant, compared exactly; through PRINT with two type probes); every ordered pair (and triple) of operators is evaluated in every tree shape with minimal and full parentheses; every literal spelling up to 6/7 characters that the manual classifies, and structured long spellings (1-9 mantissa digits x point position x 14 exponent spellings x suffix), are checked in the parsed statement; 14 numeric functions and assignment to each variable type. Exhaustive within these bounds.",
-        "Reference evaluator refmodel/value.rs (manual chapter 1). Exactly rounded operations are compared bit for bit, ^ and transcendental functions within 600 ulp / underflow to zero accepted; comparisons of floats nearer than 4 epsilon are skipped.",
+        "Reference evaluator refmodel/value.rs (manual chapter 1). Exactly rounded operations are compared bit for bit, ^ and transcendental functions within 600 ulp / underflow to zero accepted; = and <> of floats nearer than 4 epsilon are skipped (tolerant equality is the implementation's design); the ordering operators are judged exactly.",
         "DESIGN.md §3 C02",
     ),
     "C03": (
@@ -50,7 +50,7 @@ CHECKS = {
     ),
     "C12": (
         "explicit-state breadth-first search over session prefixes (runs to completion / error / STOP / interrupted after k instructions, direct statements) for a family of programs, RUN and CLEAR/NEW+probes compared with a fresh interpreter",
-        "For each of 12 programs every history up to 4 (quick) / 6 (thorough) actions from 26 (direct statements incl. ones that fail to compile or link, edits, interrupted runs) is executed; every RUN must equal RUN in a fresh interpreter with the current listing and CLEAR / NEW followed by 9 probe lines must equal the probes in a fresh interpreter. Exhaustive within the depth bound and the program family.",
+        "For each of 12 programs every history up to 4 (quick) / 6 (thorough) actions from 26 (direct statements incl. ones that fail to compile or link, edits, interrupted runs) is executed; every RUN must equal RUN in a fresh interpreter with the current listing and CLEAR / NEW followed by 10 probe lines must equal the probes in a fresh interpreter. Exhaustive within the depth bound and the program family.",
         "Differential oracle (implementation from a history vs implementation from scratch); state identity by verif_digest; RND and TRON excluded as documented.",
         "DESIGN.md §3 C12",
     ),
